@@ -643,8 +643,8 @@ def _group_removal(ctx):
                        c.args[0].value, bool)
                    for c in C.node_calls(node))
     for start in flagged:
-        path = None if shrinks(start) else K.find_path(
-            start, [graph.exit], cut_node=shrinks, follow_exc=False) \
+        path = None if shrinks(start) else K.find_path_cp(
+            graph, start, [graph.exit], cut_node=shrinks) \
             if start is not graph.exit else []
         ctx.ob('C05.6', func, start, path is None,
                'a group still referenced by an instance is shrunk to zero '
@@ -687,14 +687,20 @@ def _group_sync(ctx):
         var = sorted(N.for_targets(head))[-1] if head is not None else None
         ok = head is not None and len(call.args) == 1 and \
             N.txt(call.args[0]) == var
-        shape = None
+        diff = False
         if head is not None:
-            shape = K.rexpr(func, head.ast.iter)
-        diff = isinstance(shape, ast.BinOp) and isinstance(
-            shape.op, ast.Sub) and \
-            'identity_groups' in N.txt(shape.left) and \
-            'backend.list(' in N.txt(shape.right) and \
-            'identity_groups' not in N.txt(shape.right)
+            # set algebra over the two base sets, whatever the spelling
+            # (a - b, a.difference(b), a filtered comprehension)
+            sx = K.FlowSetExpr(func, graph, {
+                'model': lambda e: N.txt(e) in (
+                    'self.cell.identity_groups',
+                    'self.cell.identity_groups.keys()'),
+                'store': lambda e: 'backend.list(' in N.txt(e) and
+                'identity_groups' not in N.txt(e)})
+            want = sx.expect(lambda e: e['model'] and not e['store'])
+            tabs = sx.tables(head.ast.iter, head)
+            diff = tabs is not None and all(
+                t and all(want[r] == v for r, v in t.items()) for t in tabs)
         ctx.ob('C05.6', func, node, bool(ok and diff),
                'groups removed = groups of the model minus groups listed in '
                'the store (%s)' % dom,
